@@ -261,20 +261,39 @@ fn proxy_flags(rep: &mut Report, res: &Resources) {
 }
 
 fn reply_ack_always_offered(rep: &mut Report, res: &Resources) {
+    // "irrespective of the device's own feature set": the device's protocol features x its virtio
+    // features (with and without bit 30) x what preceded the question on this connection
     for dev in [0u64, PF_ALL_DEFINED & !PF_REPLY_ACK, PF_ALL_DEFINED, PF_MQ, 1 << 40] {
-        let mut rec = Recorder::new();
-        rec.script.features = VIRTIO_F_PROTOCOL_FEATURES;
-        rec.script.proto = dev;
-        let sess = RawSession::new(rec);
-        let (_, _) = sess.roundtrip(&message(GET_FEATURES, F_VERSION, &[]), &[]);
-        let (r, got) = sess.roundtrip(&message(GET_PROTOCOL_FEATURES, F_VERSION, &[]), &[]);
-        rep.evaluations += 1;
-        let ok = r.is_ok() && got.bytes.len() == 20 && rd64(&got.bytes, 12) & PF_REPLY_ACK != 0 && rd64(&got.bytes, 12) & !PF_REPLY_ACK == dev & !PF_REPLY_ACK & PF_ALL_DEFINED | (rd64(&got.bytes, 12) & !PF_ALL_DEFINED);
-        if !ok {
-            rep.violation("C07:server:reply_ack-not-offered", &format!("device features {dev:#x}: GET_PROTOCOL_FEATURES answered {:02x?}", got.bytes), json!({"check":"C07","part":"offer","dev":dev}));
-        } else {
-            rep.outcome("srv:reply_ack-offered");
-            rep.nontrivial += 1;
+        for vf in [VIRTIO_F_PROTOCOL_FEATURES, 0u64, 3, VIRTIO_F_PROTOCOL_FEATURES | 3] {
+            // 0: first message of the connection, 1: after GET_FEATURES, 2: after GET_FEATURES and
+            // SET_FEATURES(everything offered), 3: after SET_FEATURES(0), 4: asked a second time
+            for before in 0..5u8 {
+                let mut rec = Recorder::new();
+                rec.script.features = vf;
+                rec.script.proto = dev;
+                let sess = RawSession::new(rec);
+                if before == 1 || before == 2 {
+                    let (_, _) = sess.roundtrip(&message(GET_FEATURES, F_VERSION, &[]), &[]);
+                }
+                if before == 2 {
+                    let (_, _) = sess.roundtrip(&message(SET_FEATURES, F_VERSION, &vf.to_ne_bytes()), &[]);
+                }
+                if before == 3 {
+                    let (_, _) = sess.roundtrip(&message(SET_FEATURES, F_VERSION, &0u64.to_ne_bytes()), &[]);
+                }
+                if before == 4 {
+                    let (_, _) = sess.roundtrip(&message(GET_PROTOCOL_FEATURES, F_VERSION, &[]), &[]);
+                }
+                let (r, got) = sess.roundtrip(&message(GET_PROTOCOL_FEATURES, F_VERSION, &[]), &[]);
+                rep.evaluations += 1;
+                let ok = r.is_ok() && got.bytes.len() == 20 && rd64(&got.bytes, 12) & PF_REPLY_ACK != 0 && rd64(&got.bytes, 12) & !PF_REPLY_ACK == dev & !PF_REPLY_ACK & PF_ALL_DEFINED | (rd64(&got.bytes, 12) & !PF_ALL_DEFINED);
+                if !ok {
+                    rep.violation("C07:server:reply_ack-not-offered", &format!("device protocol features {dev:#x}, virtio features {vf:#x}, preceding exchange {before}: GET_PROTOCOL_FEATURES answered {:02x?} ({r:?})", got.bytes), json!({"check":"C07","part":"offer","dev":dev,"vf":vf,"before":before}));
+                } else {
+                    rep.outcome("srv:reply_ack-offered");
+                    rep.nontrivial_key(&format!("offer/{dev:x}/{vf:x}/{before}"));
+                }
+            }
         }
     }
     let _ = res;
@@ -299,7 +318,7 @@ pub fn run(rep: &mut Report) {
     rep.sample(json!({"part":"subsets_frontend","mask":"0b00000000101","acked":["MQ","CONFIG"],"op":"GetQueueNum","expect":"sent"}));
     rep.sample(json!({"part":"subsets_frontend","mask":"0b00000000101","op":"ResetDevice","expect":"refused, nothing written"}));
     rep.sample(json!({"part":"histories_frontend","history":["GetFeatures(3)","SetProto(all)"],"expect":"refused: PROTOCOL_FEATURES never offered"}));
-    rep.rule = "(a) all 2^11 subsets of the gating protocol bits acknowledged after a standard negotiation x every gated operation on the frontend endpoint (all subsets) and every gated request on the backend server (all subsets at thorough; popcount<=2, >=9 and every 37th at quick; also with bit 30 not acknowledged); (b) BFS to closure over negotiation histories {GET_FEATURES answers, SET_FEATURES, GET/SET_PROTOCOL_FEATURES with 0/each single bit/all/all-minus-one, every gated op} on the frontend endpoint (server-side histories: C04); (c) 8 flag combinations x 5 proxy requests; (d) GET_PROTOCOL_FEATURES for 5 device feature sets. Non-trivial = evaluations in which an operation had to be refused and nothing may reach the wire / the handler".into();
+    rep.rule = "(a) all 2^11 subsets of the gating protocol bits acknowledged after a standard negotiation x every gated operation on the frontend endpoint (all subsets) and every gated request on the backend server (all subsets at thorough; popcount<=2, >=9 and every 37th at quick; also with bit 30 not acknowledged); (b) BFS to closure over negotiation histories {GET_FEATURES answers, SET_FEATURES, GET/SET_PROTOCOL_FEATURES with 0/each single bit/all/all-minus-one, every gated op} on the frontend endpoint (server-side histories: C04); (c) 8 flag combinations x 5 proxy requests; (d) GET_PROTOCOL_FEATURES for 5 device protocol-feature sets x 4 device virtio-feature sets (with / without bit 30) x 5 preceding exchanges (none, GET_FEATURES, + SET_FEATURES(all), SET_FEATURES(0), asked twice). Non-trivial = evaluations in which an operation had to be refused and nothing may reach the wire / the handler".into();
     rep.assumptions.push("'log shmfd' is read as 'no descriptor-carrying SET_LOG_BASE before LOG_SHMFD is acknowledged' (the API falls back to the plain form)".into());
     rep.assumptions.push("'acknowledged' = the value the frontend sent in SET_(PROTOCOL_)FEATURES on this connection, whether or not the backend's handler accepted it".into());
 }
